@@ -79,13 +79,15 @@ CLAIMED["C05"] = dict(
 CLAIMED["C06"] = dict(
     technique="Coq proof (frequency-table algebra, context isolation by extensionality through the whole search, score shift, candidate-set invariance) + real-server histories + real ConversionFrequency at the expiry boundary",
     text="C06_confirm_exact (exactly one count +1, stamped now, every other key untouched unless unused for more than three days), C06_unknown_changes_nothing, C06_same_candidate_set, C06_score_shift, C06_context_isolation, "
-         "expiry boundary (exactly 3 d kept, +1 ms dropped).",
+         "expiry boundary (exactly 3 d kept, +1 ms dropped). Histories include JSON-RPC batches, a 14-candidate list with every id confirmed, one word learned in two contexts with one stale count, "
+         "and six confirmations of one session sent at the same moment under delays at the lock sites (rise of exactly one).",
     note="full for the logic; " + SRV_NOTE, ref="6/C06")
 CLAIMED["C07"] = dict(
     technique="Coq proof (composition of C03's offer theorem, the trie/key-set abstraction of C04 and dictionary monotonicity) + real-server histories with every guessable ending",
     text="C07_registered_convertible: once applied, every conjugated form whose reading is spelled in the dictionary alphabet is offered for its reading (untruncated list); C07_only_adds; guessed classes always contain the form before ない; "
          "C07_no_deadlock: the updater and the handlers take their mutexes in one rank order on this run's extracted protocol. The real server is driven with registrations of every kind and ending; expected forms come from the real library AND from a "
-         "hand-written grammar corpus (行かない→行っ, 可愛い, 静かだ ...), so a defect in the conjugation itself is seen too; registrations race with conversions under injected delays.",
+         "hand-written grammar corpus (行かない→行っ, 可愛い, 静かだ ...), so a defect in the conjugation itself is seen too; registrations race with conversions under injected delays; "
+         "groups of same-reading registrations (40 homophones, guessed verbs) also travel as ONE JSON-RPC batch so that the updater finds several entries waiting.",
     note="partial: 'within bounded time' = no deadlock (proved on the extracted protocol) + the asynchronous hand-off observed by polling; the server's n = 100 truncation is outside the offer clause. " + SRV_NOTE, ref="6/C07")
 CLAIMED["C08"] = dict(
     technique="Coq proof (restore = filter of printable entries, synced invariant, exact restart theorem) + kernel-checked refutation witness + real-server save/stop/start histories",
@@ -110,7 +112,8 @@ CLAIMED["C18"] = dict(
          "the notes converter returns entries or takes its explicit unsupported-conjugation rejection, nothing else (C18_notes_total, C18_notes_fail_only_unsupported); every supported (class,row) except ワ行上二 conjugates "
          "in chokan-dic to a non-empty set with the row's core forms, okurigana beginning in the row (C18_base_verb_conjugates; the exception is proved: C18_base_verb_refuted, known finding F19). "
          "All four parsers/converters are compiled from the repository into the harness and compared with the models on generated well-formed SKK and notes lines, mutations and random Unicode; emitted lines are read back by the real dictionary parser; "
-         "the four converter PROGRAMS are run on generated EUC-JP files with undecodable lines in between and what they write is compared with what the per-line functions emit.",
+         "the four converter PROGRAMS are run on generated EUC-JP files with undecodable lines in between and what they write is compared with what the per-line functions emit; "
+         "the parts of speech a generated note names must be the parts of speech of the emitted entries (prefix / suffix copies of [<] / [>] classes aside).",
     note="full for the modelled parsers and converters; totality of the implementation (no panic where the model returns a value) is what the correspondence observes. "
          "Three genuine defects repaired (F11a, F11b, F18), one recorded (F19). Trusted: Coq kernel; translators gen_skk (rule shapes pinned, classes generated) and gen_skknotes (okurigana table generated; notes grammar and converter text hash-pinned to the hand models Skk/Notes.v, Skk/NotesConv.v); "
          "EUC-JP decoding, line splitting and HashSet de-duplication in the converters' main.rs are not modelled.",
